@@ -18,7 +18,7 @@ Oracles (both on every case):
   metamorphic  GraphParser(family_map) on the family form == GraphParser() on
                the hand-expanded member form (truth tables, nodes, optionality).
 
-1 case in 10 (by hash) is also loaded through WorkflowConfig with a real
+1 case in 20 (by hash) is also loaded through WorkflowConfig with a real
 [runtime] inheritance tree and checked on TaskDef dependencies / outputs.
 """
 from __future__ import annotations
@@ -35,7 +35,7 @@ from vf.props import c14 as B
 
 PROP_ID = 'C15'
 LEVEL = 'exploration'
-BUDGET = {'quick': 3000, 'thorough': 80000}     # Hypothesis part
+BUDGET = {'quick': 2000, 'thorough': 80000}     # Hypothesis part
 RULE = (
     'Part 1 (exhaustive, every run): the product of 14 family qualifiers x '
     'family size 1-4 x flat/nested family x 9 positions x offset (left '
@@ -46,7 +46,7 @@ RULE = (
     'random and/or trees with parentheses and offsets.  Each case is parsed '
     'with GraphParser(family_map) and compared (truth tables per right-hand '
     'task, node set, output optionality) with the member-level model and with '
-    'GraphParser() on the hand-expanded member form; 1 in 10 also through '
+    'GraphParser() on the hand-expanded member form; 1 in 20 also through '
     'WorkflowConfig.  Non-trivial = a family with >= 2 members is used; '
     'distinct = by (families, chains).')
 ASSUMPTIONS = [
@@ -629,7 +629,7 @@ def check_case(case, ctx: Ctx) -> CaseResult:
                     f'family form:\n{text}\n-> {gp.triggers} '
                     f'{n1["required"]}\nmember form:\n{text2}\n-> '
                     f'{gp2.triggers} {n2["required"]}'))
-    if int(jhash([fams, chains])[:8], 16) % 10 == 0:
+    if int(jhash([fams, chains])[:8], 16) % 20 == 0:
         classes.append('via-config')
         viol += _check_config(fams, chains, model, ctx)
     seen, out = set(), []
